@@ -9,7 +9,7 @@ META = {
         "path components are escaped with escape_if_needed and quoted exactly when is_identifier of the same string is false, and the reader "
         "passes both through parse_text_token; R3 every body carried by an envelope is forwarded (the body operand of the message derives "
         "from the envelope's body and is dropped only when empty); R4 a response is offered only to the subscription registered for the "
-        "envelope's own node and lane, a request only to the route for its node; an invalid envelope is never delivered; R5 the multiplexer "
+        "envelope's own node and lane, a request only to the route for its node; an invalid envelope is never delivered, and after a failed delivery exactly the failed writers are evicted (R4b); R5 the multiplexer "
         "re-queues a stream after every item, removes it on end, and signals readiness before waking."),
     "does_not_decide": "equality of node/lane/body for all strings (C09's law); per-source ordering through the multiplexer under all interleavings",
 }
@@ -157,6 +157,49 @@ def run(ctx):
                 loop_heads = {c.block for c in b.calls if c.name in ("peel_envelope_header_str", "peel_envelope_header")}
                 r.check(not (reach & loop_heads), "incoming/invalid-envelope-stops", pe[0].loc(), "an invalid envelope ends the task (never delivered, no further frames processed)",
                         "after an invalid envelope the task keeps routing frames")
+
+    with ctx.rule("C11.R4b", "T7", "send_response evicts exactly the writers whose send failed (positions refer to the original sequence)", floor=3) as r:
+        sr = [b for b in rm.all_bodies() if b.defpath.endswith("task::send_response::{closure#0}")]
+        if len(sr) != 1:
+            raise AnchorMissing("send_response coroutine body")
+        b = ctx.saw(sr[0])
+        cls = rm.closures_of(b.defpath)
+        # producer side: the index reported for a failed send is the enumerate() index of that sender
+        prod = [cb for cb in cls if cb.meta.get("coroutine") and any(c.via_name == "send" for c in cb.calls)]
+        okp = False
+        for cb in prod:
+            for i, j, p, rv, line in cb.assigns():
+                if rv[0] == "agg" and rv[1].get("variant") == "Some" and rv[2]:
+                    g = guards(cb, i)
+                    if any(d.startswith("is_err(") and l == "true" for d, l, _ in g):
+                        okp = True
+        en = [c for c in b.calls if c.via_name == "enumerate"]
+        r.check(okp and len(en) >= 1, "send_response/failed-index-is-enumerate-index", where(b), "a failed send reports Some(i) with i from iter_mut().enumerate()", "failed sends are no longer identified by their enumerate() index")
+        # consumer side: closures that test membership in `failed`
+        dec = []
+        for cb in cls:
+            if cb.meta.get("coroutine"):
+                continue
+            tests = [c for c in cb.calls if c.name in ("contains", "peek", "binary_search", "any") and c.args and "failed" in describe_operand(cb, c.args[0])]
+            if tests:
+                dec.append((cb, tests))
+        if not dec:
+            raise AnchorMissing("send_response: no closure tests membership in `failed`")
+        for cb, tests in dec:
+            ctx.saw(cb)
+            # the position compared: a closure parameter (enumerate item) or a captured counter
+            upv_writes = [(i, describe_place(cb, p)) for i, j, p, rv, line in cb.assigns() if p[1] and cb.resolve(p).root == 1 and rv[0] in ("use", "bin") and ("index" in describe_place(cb, p) or "Add" in describe_rvalue(cb, rv))]
+            if upv_writes:
+                blocks = {i for i, _ in upv_writes}
+                ok, wit = cb.must_pass([0], blocks)
+                r.check(ok, "send_response/position-counter-advanced-for-every-element", where(cb), "the position counter is advanced on every call of the retain/filter closure",
+                        "the position counter is only advanced for some elements (%s): after the first eviction positions no longer refer to the original sequence and a healthy writer is evicted instead of a failed one" % wit)
+            else:
+                enum2 = [c for c in b.calls if c.via_name == "enumerate"]
+                flt = [c for c in b.calls if c.via_name in ("filter", "retain", "filter_map") and cb.defpath in (c.callee.get("closure_args") or [])]
+                okc = len(enum2) >= 2 and bool(flt) and any(b.dominates(e.block, flt[0].block) for e in enum2[1:]) if flt else False
+                r.check(okc, "send_response/position-from-enumerate", where(cb), "eviction is decided on the enumerate() position of the original sequence", "eviction position is neither an enumerate() index nor a counter")
+        r.check(any(c.name in ("is_empty",) for c in b.calls), "send_response/reports-whether-any-left", where(b), "the result says whether any writer is left for the lane")
 
     with ctx.rule("C11.R5", "T2+T1", "MultiReader: re-queue after each item, remove on end, set ready before waking", floor=5) as r:
         mr = ctx.crate("swimos_multi_reader")
